@@ -25,7 +25,7 @@ RULE = (
     "simulator built from the request multiset; a state is the canonical multiset of requested edges; non-trivial = the "
     "synapses change the voltages by > 1e-6 mV relative to the unconnected network"
 )
-REQUIRED_COVER = ["many_edges_interleaved", "autapse", "fan_in", "interleaved_types", "post_area_distinct", "same_cell_pair",
+REQUIRED_COVER = ["parameters_set_between_connects", "many_edges_interleaved", "autapse", "fan_in", "interleaved_types", "post_area_distinct", "same_cell_pair",
                   "accepted:jaxley.stone", "accepted:jaxley.thomas", "accepted:jax.sparse",
                   "api:type_view", "api:global_edge", "api:select_edges", "zero_g"]
 ASSUMPTIONS = [
@@ -100,16 +100,23 @@ def _syn_obj(t):
     return [IonotropicSynapse, TestSynapse, TanhRateSynapse][t]()
 
 
-def _apply(net, seq, forms, zero_g=False):
-    """Replay the creation history on a real network and set per-edge parameters through views."""
+def _apply(net, seq, forms, zero_g=False, incremental=False):
+    """Replay the creation history on a real network and set per-edge parameters through views: after all connects, or
+    (incremental) each edge's parameters right after its own connect, so that later connects find customised synapses."""
     from jaxley.connect import connect
 
-    for (pre, post, t) in seq:
+    def do_connect(pre, post, t):
         cp, bp, kp = EP[pre]
         cq, bq, kq = EP[post]
         connect(net.cell(cp).branch(bp).comp(kp), net.cell(cq).branch(bq).comp(kq), _syn_obj(t))
+
+    if not incremental:
+        for (pre, post, t) in seq:
+            do_connect(pre, post, t)
     rank = {}
     for gi, (pre, post, t) in enumerate(seq):
+        if incremental:
+            do_connect(pre, post, t)
         r = rank.get(t, 0)
         rank[t] = r + 1
         form = forms[gi % len(forms)]
@@ -165,11 +172,14 @@ def _interleaved(seq):
     return len(set(ts)) > 1 and ts != sorted(ts, key=lambda x: ts.index(x))
 
 
-def run_history(netname, seq, forms, want_zero=True, nsteps=NSTEPS):
+def run_history(netname, seq, forms, want_zero=True, nsteps=NSTEPS, incremental=False):
     out = {"violations": [], "cover": [], "refusals": [], "digests": [], "evals": 0, "transitions": len(seq)}
     seq = [tuple(e) for e in seq]
     feats = _sig_feats(seq)
-    wit = {"net": netname, "seq": [list(e) for e in seq], "forms": list(forms), "nsteps": nsteps}
+    wit = {"net": netname, "seq": [list(e) for e in seq], "forms": list(forms), "nsteps": nsteps, "incremental": incremental}
+    if incremental:
+        feats = dict(feats, set_between_connects=True)
+        out["cover"].append("parameters_set_between_connects")
     base = _base(netname)
 
     def viol(rule, backend, msg):
@@ -178,7 +188,7 @@ def run_history(netname, seq, forms, want_zero=True, nsteps=NSTEPS):
     for zero_g in ([False, True] if want_zero and seq else [False]):
         net = copy.deepcopy(base)
         try:
-            _apply(net, seq, forms, zero_g)
+            _apply(net, seq, forms, zero_g, incremental)
         except Exception as e:
             viol("connect_or_set_raised", "-", f"{type(e).__name__}: {e}")
             return out
@@ -245,7 +255,7 @@ def run_history(netname, seq, forms, want_zero=True, nsteps=NSTEPS):
 def work(item):
     res = {"violations": [], "cover": [], "refusals": [], "digests": [], "evals": 0, "transitions": 0}
     for h in item["histories"]:
-        r = run_history(item["net"], h["seq"], h["forms"], want_zero=h.get("zero", True), nsteps=item["nsteps"])
+        r = run_history(item["net"], h["seq"], h["forms"], want_zero=h.get("zero", True), nsteps=item["nsteps"], incremental=h.get("incremental", False))
         for k in ("violations", "cover", "refusals", "digests"):
             res[k] += r[k]
         res["evals"] += r["evals"]
@@ -296,6 +306,10 @@ def _long_histories(tier):
 
 def explore(ctx):
     hs = _histories(ctx.tier) + _long_histories(ctx.tier)
+    # the same histories with every edge customised right after its own connect (quick: those of length 2-3, every 8th long one)
+    inc = [dict(h, incremental=True, zero=False) for k, h in enumerate(hs)
+           if len(h["seq"]) >= 2 and (not h.get("long") or k % (8 if ctx.tier == "quick" else 2) == 0)]
+    hs = hs + inc
     nets = ["hetero", "level_homog"]
     ctx.note("alphabet_edges", len(ALPHABET))
     ctx.note("histories_per_net", len(hs))
@@ -323,5 +337,5 @@ def explore(ctx):
 
 
 def replay(w):
-    r = run_history(w["net"], [tuple(e) for e in w["seq"]], w["forms"], nsteps=w.get("nsteps", NSTEPS))
+    r = run_history(w["net"], [tuple(e) for e in w["seq"]], w["forms"], nsteps=w.get("nsteps", NSTEPS), incremental=w.get("incremental", False))
     return r["violations"]
